@@ -442,6 +442,9 @@ struct Right { template <class T> T operator()(const T&, const T& b) const { ret
 static bool isGenericFun(const std::string& fn) {
   return fn == "gsum" || fn == "gprod" || fn == "gmin" || fn == "gmax" || fn == "gxor" || fn == "left" || fn == "right";
 }
+// generic functors offered for the container views (see callRed / callColl)
+static bool isVGeneric(const std::string& fn) { return fn == "gmin" || fn == "gmax" || fn == "left" || fn == "right"; }
+static bool isKGeneric(const std::string& fn) { return fn == "gsum" || fn == "gprod" || fn == "left" || fn == "right"; }
 // the named reduction a generic functor computes
 static std::string plainFun(const std::string& fn) {
   if (fn == "gsum") return "sum";
@@ -713,17 +716,24 @@ std::vector<T> callRed(CC& cc, const std::string& fn, const std::string& form, s
     cc.template allreduce<F>(in.data(), out.data(), n);
     return out;
   }
-  // container forms: std::vector<T> handed to allreduce(Type&&) / iallreduce with any functor on T; MPI reduces the
-  // vector's entries, so the MPI_Op has to be the one for (T, F)   (repaired by fixes/C07_reduce_container_op.patch:
-  // before, the op was instantiated for the container and most of these calls did not compile, the rest overran buffers)
+  // container forms: std::vector<T> handed to allreduce(Type&&) / iallreduce; MPI reduces the vector's entries, so the
+  // MPI_Op has to be the one for (T, F) (repaired by fixes/C07_reduce_container_op.patch: before, the op was instantiated
+  // for the container).  Only generic functors that can also be applied to two std::vector objects are used: with every
+  // other functor the call does not even compile on a tree where one of the three call sites instantiates the op for
+  // the container again, and the check could not show the overrun as a replay.  (The same wrapper code and the same
+  // Generic_MPI_Op<T, F> instantiations are exercised; typed functors reach Generic_MPI_Op through the pointer forms.)
   if (form == "vrv" || form == "viio" || form == "viip") {
-    if ((int)in.size() != n || (int)out.size() != n) throw Unsupported{};
-    if (form == "vrv") {
-      if constexpr (isMpi) return cc.template allreduce<F>(std::move(in));
-      else throw Unsupported{};
+    constexpr bool genericF = std::is_same_v<F, GMin> || std::is_same_v<F, GMax> || std::is_same_v<F, Left> || std::is_same_v<F, Right>;
+    if constexpr (!genericF) throw Unsupported{};
+    else {
+      if ((int)in.size() != n || (int)out.size() != n) throw Unsupported{};
+      if (form == "vrv") {
+        if constexpr (isMpi) return cc.template allreduce<F>(std::move(in));
+        else throw Unsupported{};
+      }
+      if (form == "viio") return cc.template iallreduce<F>(std::move(in), std::move(out)).get();
+      return cc.template iallreduce<F>(std::move(in)).get();
     }
-    if (form == "viio") return cc.template iallreduce<F>(std::move(in), std::move(out)).get();
-    return cc.template iallreduce<F>(std::move(in)).get();
   }
   // MPIData based forms: vector<T> when T is intrinsic and F one of the four functors with a predefined MPI_Op,
   // a single scalar otherwise
@@ -779,11 +789,14 @@ std::vector<T> callColl(CC& cc, const std::string& op, const Local& L) {
     if constexpr (std::is_same_v<T, FV3>) {
       const std::string fn = funOf(op);
       bool named = fn == "sum" || fn == "prod" || fn == "min" || fn == "max";
-      if (!named && !isGenericFun(fn) && fn != "xor" && fn != "first") throw Unsupported{};
+      if (!named && !isKGeneric(fn)) throw Unsupported{};
       std::vector<T> res;
       if (!withFun<int>(fn, [&](auto tag) {
             using F = typename decltype(tag)::type;
-            res = callRedK<T, F>(cc, form, std::move(in), std::move(out), n);
+            // functors that cannot be applied to two FieldVector objects are left out (see the vector forms in callRed)
+            if constexpr (std::is_same_v<F, First> || std::is_same_v<F, std::bit_xor<int>> || std::is_same_v<F, std::bit_xor<>> ||
+                          std::is_same_v<F, GMin> || std::is_same_v<F, GMax>) throw Unsupported{};
+            else res = callRedK<T, F>(cc, form, std::move(in), std::move(out), n);
           }))
         throw Unsupported{};
       return res;
@@ -1718,13 +1731,11 @@ static std::string genColl(Rng& g, int P, const Force* force = nullptr) {
     if (!light && (intr || trueScalar)) { forms.push_back("iio"); forms.push_back("iip"); if (!seq) forms.push_back("rv"); }
     if (light) forms = {"sc", "ip", "io"};
     if (light && isGenericFun(fn)) forms = {"ip", "io"};
-    // container views: a vector<T> with a functor that has no predefined MPI_Op; a FieldVector object reduced entry by
-    // entry (functor on int)
-    bool namedFn0 = fn == "sum" || fn == "prod" || fn == "min" || fn == "max";
-    if (!light && !(intr && namedFn0)) { forms.push_back("viio"); forms.push_back("viip"); if (!seq) forms.push_back("vrv"); }
+    // container views: a vector<T> with a generic functor; a FieldVector object reduced entry by entry (functor on int)
+    if (!light && isVGeneric(fn)) { forms.push_back("viio"); forms.push_back("viip"); if (!seq) forms.push_back("vrv"); }
     bool kform = (force && force->kform) || (!force && !forceNc && k.ty == "fv3" && g.coin(1, 4));
     if (kform) {
-      if (!isGenericFun(fn)) fn = g.pick(std::vector<std::string>{"sum", "prod", "min", "max", "xor", "first"});
+      if (!isGenericFun(fn)) fn = g.pick(std::vector<std::string>{"sum", "prod", "min", "max"});
       forms = {"kiio", "kiip"};
       if (!seq) forms.push_back("krv");
     }
@@ -1899,7 +1910,7 @@ static std::string genHist(Rng& g, int P) {
     auto tys = shuffled(g, typesOfGeneric(fn));
     for (int i = 0; i < k; ++i) { Force f{tys[i % tys.size()], fn, "red"}; steps.push_back(genColl(g, P, &f)); }
     if (g.coin(1, 3)) { Force f{tys[0], fn, "red"}; steps.push_back(genColl(g, P, &f)); }  // and the first type once more
-    if (g.coin(1, 3)) {  // and a FieldVector<int,3> object reduced entry by entry with the same functor (element type int)
+    if (isKGeneric(fn) && g.coin(1, 2)) {  // and a FieldVector<int,3> object reduced entry by entry with the same functor (element type int)
       Force f{"fv3", fn, "red", true};
       steps.insert(steps.begin() + (long)g.below(steps.size() + 1), genColl(g, P, &f));
     }
